@@ -93,7 +93,14 @@ const (
 	ObjMap
 	ObjIter
 	ObjChan
+	ObjSparse // array of non-scalar elements with symbolic (or very large) length: default value + list of writes
 )
+
+// SpWrite is one element write of an ObjSparse (index relative to the object, not to a slice of it).
+type SpWrite struct {
+	Idx *Term
+	V   Value
+}
 
 type MapEntry struct {
 	K, V    Value
@@ -122,6 +129,9 @@ type Obj struct {
 	IterPos  int
 
 	ReadOnly bool // string data / constants
+
+	SpWrites []SpWrite // ObjSparse: writes in program order (later ones win); replaced, never modified in place
+	SpDef    Value     // ObjSparse: the value of every element not written
 
 	ChanClosed bool    // ObjChan
 	ChanQueue  []Value // ObjChan: buffered / pending values (sequential model)
